@@ -121,9 +121,12 @@ def analyse(js, diags, linemap, crate):
         labels = [{"line": s["line_start"], "label": s.get("label"), "text": " ".join(t["text"].strip() for t in s.get("text", []))[:200]} for s in spans]
         org = _origin_of(linemap, line) if line else {"kind": "unknown"}
         e = {"message": msg, "line": line, "text": text, "origin": org, "labels": labels, "rendered": d.get("rendered", "")[:3000]}
-        if d.get("code") or not js.get("verification-results") or vr.get("encountered-vir-error"):
+        if re.search(r"rlimit|Resource limit|resource limit|timed out", msg):
+            e["rlimit"] = True
             hard.append(e)
-        elif re.search(r"not supported|does not yet support|cannot find|mismatched types|expected|unresolved|rlimit|Resource limit|resource limit|timed out|panicked", msg):
+        elif d.get("code") or not js.get("verification-results") or vr.get("encountered-vir-error"):
+            hard.append(e)
+        elif re.search(r"not supported|does not yet support|cannot find|mismatched types|expected|unresolved|panicked", msg):
             hard.append(e)
         else:
             errors.append(e)
